@@ -52,7 +52,7 @@ class AhbExpressionTransformer(Transformer):
 
     def PREFIX_OPERATOR(self, prefix_operator: Token) -> PrefixOperator:
         """Returns the prefix operator."""
-        return PrefixOperator(prefix_operator.value)
+        return PrefixOperator(prefix_operator.value.upper())
 
     def MODAL_MARK(self, modal_mark: Token) -> ModalMark:
         """Returns the modal mark."""
